@@ -34,3 +34,279 @@ package openapi3filter
 //@   loop 0 invariant #i > 0 ==> err != nil
 //@   loop 0 invariant forall j int :: 0 <= j && j < #i ==> !primOK(raw, schema.Value.Format, tlist(schema.Value.Type)[j])
 //@   tag C05
+
+// ---- the value and the verdict of primitive parsing as functions of the text and the schema: names
+// for what parsePrimitive returns (its own contract above says what that is), so that the decoders
+// can be specified by *which text* they hand to it.
+//@ spec primValue(raw string, s *openapi3.SchemaRef) any
+//@ spec primAccepts(raw string, s *openapi3.SchemaRef) bool
+//@ extend func parsePrimitive
+//@   defines result.0 == primValue(raw, schema) && ((result.1 == nil) <==> primAccepts(raw, schema))
+
+// ---- path parameters. Oracle: the style table of the OpenAPI specification (RFC 6570 expansion):
+//   simple  blue            blue,black,brown                     R,100,G,200,B,150 / R=100,G=200,B=150
+//   label   .blue           .blue,black,brown / .blue.black.brown  .R,100,G,200,B,150 / .R=100.G=200.B=150
+//   matrix  ;color=blue     ;color=blue,black,brown / ;color=blue;color=black;color=brown
+//                                                                ;color=R,100,G,200,B,150 / ;R=100;G=200;B=150
+//@ spec pathStyle(style string) bool := style == "simple" || style == "label" || style == "matrix"
+//@ spec pathPrefix(style string, param string) string :=
+//@     style == "label" ? "." : style == "matrix" ? concat(concat(";", param), "=") : ""
+//@ spec pathArrDelim(style string, explode bool, param string) string :=
+//@     style == "label" && explode ? "." : style == "matrix" && explode ? concat(concat(";", param), "=") : ","
+//@ spec pathPresent(d *pathParamDecoder, param string) bool := has(d.pathParams, param) && d.pathParams[param] != ""
+//@ spec rest(raw string, prefix string) string := substr(raw, len(prefix), len(raw) - len(prefix))
+
+//@ func cutPrefix
+//@   modifies nothing
+//@   ensures [keeps-the-rest] hasPrefix(raw, prefix) ==> result.1 == nil && result.0 == rest(raw, prefix)
+//@   ensures [rejects-other-text] !hasPrefix(raw, prefix) ==> result.1 != nil
+//@   tag C05 C10
+
+//@ func (*pathParamDecoder).DecodePrimitive
+//@   requires d != nil
+//@   assuming sm != nil && schema != nil && schema.Value != nil
+//@   modifies nothing
+//@   ensures [unsupported-style] !pathStyle(sm.Style) ==> result.2 != nil
+//@   ensures [absent] pathStyle(sm.Style) && !pathPresent(d, param) ==> result.0 == nil && !result.1 && result.2 == nil
+//@   ensures [decodes-serialisation] pathStyle(sm.Style) && pathPresent(d, param) && hasPrefix(d.pathParams[param], pathPrefix(sm.Style, param))
+//@        ==> result.1 && result.0 == primValue(rest(d.pathParams[param], pathPrefix(sm.Style, param)), schema)
+//@         && ((result.2 == nil) <==> primAccepts(rest(d.pathParams[param], pathPrefix(sm.Style, param)), schema))
+//@   ensures [rejects-other-text] pathStyle(sm.Style) && pathPresent(d, param) && !hasPrefix(d.pathParams[param], pathPrefix(sm.Style, param)) ==> result.2 != nil
+//@   tag C05 C10
+
+// ---- arrays: every piece is parsed as a primitive of the items schema; a piece that is not a
+// serialisation of the item type makes the array an error; an empty piece makes the whole array absent
+//@ spec itemOK(raw []string, s *openapi3.SchemaRef, i int) bool := primAccepts(raw[i], s.Value.Items) && primValue(raw[i], s.Value.Items) != nil
+//@ func parseArray
+//@   assuming schemaRef != nil && schemaRef.Value != nil && schemaRef.Value.Items != nil && schemaRef.Value.Items.Value != nil
+//@   modifies nothing
+//@   loop 0 invariant len(value) == #i
+//@   loop 0 invariant forall j int :: 0 <= j && j < #i ==> itemOK(raw, schemaRef, j) && value[j] == primValue(raw[j], schemaRef.Value.Items)
+//@   ensures [all-items] (forall j int :: 0 <= j && j < len(raw) ==> itemOK(raw, schemaRef, j))
+//@        ==> result.1 == nil && len(result.0) == len(raw) && (forall j int :: 0 <= j && j < len(raw) ==> result.0[j] == primValue(raw[j], schemaRef.Value.Items))
+//@   ensures [bad-item-rejected] (exists k int :: 0 <= k && k < len(raw) && !primAccepts(raw[k], schemaRef.Value.Items) && (forall j int :: 0 <= j && j < k ==> itemOK(raw, schemaRef, j))) ==> result.1 != nil
+//@   ensures [error-carries-no-value] result.1 != nil ==> len(result.0) == 0
+//@   tag C05 C10
+
+//@ func invalidSerializationMethodErr
+//@   requires sm != nil
+//@   modifies nothing
+//@   ensures result != nil
+//@   tag C05 C10
+
+//@ func (*pathParamDecoder).DecodeArray
+//@   requires d != nil
+//@   assuming sm != nil && schema != nil && schema.Value != nil && schema.Value.Items != nil && schema.Value.Items.Value != nil
+//@   modifies nothing
+//@   ensures [unsupported-style] !pathStyle(sm.Style) ==> result.2 != nil
+//@   ensures [absent] pathStyle(sm.Style) && !pathPresent(d, param) ==> len(result.0) == 0 && !result.1 && result.2 == nil
+//@   ensures [decodes-serialisation] pathStyle(sm.Style) && pathPresent(d, param) && hasPrefix(d.pathParams[param], pathPrefix(sm.Style, param))
+//@        && (forall j int :: 0 <= j && j < splitLen(rest(d.pathParams[param], pathPrefix(sm.Style, param)), pathArrDelim(sm.Style, sm.Explode, param)) ==>
+//@               primAccepts(splitAt(rest(d.pathParams[param], pathPrefix(sm.Style, param)), pathArrDelim(sm.Style, sm.Explode, param), j), schema.Value.Items)
+//@            && primValue(splitAt(rest(d.pathParams[param], pathPrefix(sm.Style, param)), pathArrDelim(sm.Style, sm.Explode, param), j), schema.Value.Items) != nil)
+//@        ==> result.1 && result.2 == nil
+//@         && len(result.0) == splitLen(rest(d.pathParams[param], pathPrefix(sm.Style, param)), pathArrDelim(sm.Style, sm.Explode, param))
+//@         && (forall j int :: 0 <= j && j < len(result.0) ==> result.0[j] == primValue(splitAt(rest(d.pathParams[param], pathPrefix(sm.Style, param)), pathArrDelim(sm.Style, sm.Explode, param), j), schema.Value.Items))
+//@   ensures [rejects-other-text] pathStyle(sm.Style) && pathPresent(d, param) && !hasPrefix(d.pathParams[param], pathPrefix(sm.Style, param)) ==> result.2 != nil
+//@   tag C05 C10
+
+// ---- objects: the text is cut into (name, value) pairs. With one delimiter for both levels the
+// pieces alternate name, value, name, value (an odd number of pieces is not a serialisation); with
+// two delimiters every piece must itself split into exactly name and value. The value of a name is
+// stated for texts whose names are pairwise distinct (which of two values a repeated name keeps is
+// left open).
+//@ spec propsMap(src string, pd string, vd string) map[string]string
+//@ spec propsOK(src string, pd string, vd string) bool
+// one delimiter: names at the even positions, each followed by its value
+//@ spec evenPos(src string, d string, e int) bool := 0 <= e && e < splitLen(src, d) && e % 2 == 0
+//@ spec distinctNames1(src string, d string) bool opaque := forall a int, b int :: evenPos(src, d, a) && evenPos(src, d, b) && a < b ==> splitAt(src, d, a) != splitAt(src, d, b)
+// two delimiters: piece i is name<vd>value
+//@ spec nameOf(src string, pd string, vd string, i int) string := splitAt(splitAt(src, pd, i), vd, 0)
+//@ spec valueOf(src string, pd string, vd string, i int) string := splitAt(splitAt(src, pd, i), vd, 1)
+//@ spec distinctNames2(src string, pd string, vd string) bool opaque := forall a int, b int :: 0 <= a && a < b && b < splitLen(src, pd) ==> nameOf(src, pd, vd, a) != nameOf(src, pd, vd, b)
+//@ func propsFromString
+//@   modifies nothing
+//@   defines result.0 == propsMap(src, propDelim, valueDelim) && ((result.1 == nil) <==> propsOK(src, propDelim, valueDelim))
+//@   loop 0 invariant 0 <= i && i <= len(pairs)/2 && fresh(props)
+//@   loop 0 invariant forall k string :: has(props, k) ==> (exists e int :: evenPos(src, propDelim, e) && e < 2*i && k == splitAt(src, propDelim, e))
+//@   loop 0 invariant forall e int :: evenPos(src, propDelim, e) && e < 2*i ==> has(props, splitAt(src, propDelim, e))
+//@   loop 0 invariant distinctNames1(src, propDelim) ==> (forall e int :: evenPos(src, propDelim, e) && e < 2*i ==> props[splitAt(src, propDelim, e)] == splitAt(src, propDelim, e+1))
+//@   loop 1 invariant fresh(props)
+//@   loop 1 invariant forall j int :: 0 <= j && j < #i ==> splitLen(splitAt(src, propDelim, j), valueDelim) == 2
+//@   loop 1 invariant forall k string :: has(props, k) ==> (exists j int :: 0 <= j && j < #i && k == nameOf(src, propDelim, valueDelim, j))
+//@   loop 1 invariant forall j int :: 0 <= j && j < #i ==> has(props, nameOf(src, propDelim, valueDelim, j))
+//@   loop 1 invariant distinctNames2(src, propDelim, valueDelim) ==> (forall j int :: 0 <= j && j < #i ==> props[nameOf(src, propDelim, valueDelim, j)] == valueOf(src, propDelim, valueDelim, j))
+//@   ensures [one-delimiter.accepts-even-lists] propDelim == valueDelim ==> ((result.1 == nil) <==> splitLen(src, propDelim) % 2 == 0)
+//@   ensures [one-delimiter.names] propDelim == valueDelim && result.1 == nil ==> (forall k string :: has(result.0, k) <==> (exists e int :: evenPos(src, propDelim, e) && k == splitAt(src, propDelim, e)))
+//@   ensures [one-delimiter.values] propDelim == valueDelim && result.1 == nil && distinctNames1(src, propDelim) ==> (forall e int :: evenPos(src, propDelim, e) ==> result.0[splitAt(src, propDelim, e)] == splitAt(src, propDelim, e+1))
+//@   ensures [two-delimiters.accepts-pair-lists] propDelim != valueDelim ==> ((result.1 == nil) <==> (forall i int :: 0 <= i && i < splitLen(src, propDelim) ==> splitLen(splitAt(src, propDelim, i), valueDelim) == 2))
+//@   ensures [two-delimiters.names] propDelim != valueDelim && result.1 == nil ==> (forall k string :: has(result.0, k) <==> (exists j int :: 0 <= j && j < splitLen(src, propDelim) && k == nameOf(src, propDelim, valueDelim, j)))
+//@   ensures [two-delimiters.values] propDelim != valueDelim && result.1 == nil && distinctNames2(src, propDelim, valueDelim) ==> (forall j int :: 0 <= j && j < splitLen(src, propDelim) ==> result.0[nameOf(src, propDelim, valueDelim, j)] == valueOf(src, propDelim, valueDelim, j))
+//@   ensures [error-carries-no-value] result.1 != nil ==> result.0 == nil
+//@   tag C05 C10
+
+// deep-object assembly is not specified here: the object a property map yields is an abstract
+// function of the map and the schema
+//@ spec objValue(props map[string]string, s *openapi3.SchemaRef) map[string]any
+//@ spec objAccepts(props map[string]string, s *openapi3.SchemaRef) bool
+//@ func makeObject
+//@   modifies *
+//@   preserves all(openapi3), pathParamDecoder.*, headerParamDecoder.*, cookieParamDecoder.*, urlValuesDecoder.*, http.Request.*, map[string]string, map[string][]string
+//@   defines result.0 == objValue(props, schema) && ((result.1 == nil) <==> objAccepts(props, schema))
+
+// path objects: (prefix, pair delimiter, name/value delimiter) per style and explode
+//@ spec pathObjPrefix(style string, explode bool, param string) string :=
+//@     style == "label" ? "." : style == "matrix" ? (explode ? ";" : concat(concat(";", param), "=")) : ""
+//@ spec pathObjPD(style string, explode bool) string := explode && style == "label" ? "." : explode && style == "matrix" ? ";" : ","
+//@ spec objVD(explode bool) string := explode ? "=" : ","
+//@ func (*pathParamDecoder).DecodeObject
+//@   requires d != nil
+//@   assuming sm != nil && schema != nil && schema.Value != nil
+//@   modifies *
+//@   preserves all(openapi3), pathParamDecoder.*, map[string]string
+//@   ensures [unsupported-style] !pathStyle(sm.Style) ==> result.2 != nil
+//@   ensures [absent] pathStyle(sm.Style) && !old(pathPresent(d, param)) ==> result.0 == nil && !result.1 && result.2 == nil
+//@   ensures [decodes-serialisation] pathStyle(sm.Style) && old(pathPresent(d, param)) && hasPrefix(old(d.pathParams[param]), pathObjPrefix(sm.Style, sm.Explode, param))
+//@        ==> result.1
+//@         && ((result.2 == nil) <==> (propsOK(rest(old(d.pathParams[param]), pathObjPrefix(sm.Style, sm.Explode, param)), pathObjPD(sm.Style, sm.Explode), objVD(sm.Explode))
+//@                                  && objAccepts(propsMap(rest(old(d.pathParams[param]), pathObjPrefix(sm.Style, sm.Explode, param)), pathObjPD(sm.Style, sm.Explode), objVD(sm.Explode)), schema)))
+//@         && (result.2 == nil ==> result.0 == objValue(propsMap(rest(old(d.pathParams[param]), pathObjPrefix(sm.Style, sm.Explode, param)), pathObjPD(sm.Style, sm.Explode), objVD(sm.Explode)), schema))
+//@   ensures [rejects-other-text] pathStyle(sm.Style) && old(pathPresent(d, param)) && !hasPrefix(old(d.pathParams[param]), pathObjPrefix(sm.Style, sm.Explode, param)) ==> result.2 != nil
+//@   tag C05 C10
+
+// ---- header parameters: style simple only; the first value of the canonical header name
+//@ spec hdrPresent(d *headerParamDecoder, param string) bool := has(d.header, canonicalKey(param)) && len(d.header[canonicalKey(param)]) > 0
+//@ spec hdrText(d *headerParamDecoder, param string) string := d.header[canonicalKey(param)][0]
+//@ func (*headerParamDecoder).DecodePrimitive
+//@   requires d != nil
+//@   assuming sm != nil && schema != nil && schema.Value != nil
+//@   modifies nothing
+//@   ensures [unsupported-style] sm.Style != "simple" ==> result.2 != nil
+//@   ensures [absent] sm.Style == "simple" && !hdrPresent(d, param) ==> result.0 == nil && result.1 == has(d.header, canonicalKey(param)) && result.2 == nil
+//@   ensures [decodes-serialisation] sm.Style == "simple" && hdrPresent(d, param)
+//@        ==> result.1 && result.0 == primValue(hdrText(d, param), schema) && ((result.2 == nil) <==> primAccepts(hdrText(d, param), schema))
+//@   tag C05 C10
+
+//@ func (*headerParamDecoder).DecodeArray
+//@   requires d != nil
+//@   assuming sm != nil && schema != nil && schema.Value != nil && schema.Value.Items != nil && schema.Value.Items.Value != nil
+//@   modifies nothing
+//@   ensures [unsupported-style] sm.Style != "simple" ==> result.2 != nil
+//@   ensures [absent] sm.Style == "simple" && !hdrPresent(d, param) ==> len(result.0) == 0 && result.2 == nil
+//@   ensures [decodes-serialisation] sm.Style == "simple" && hdrPresent(d, param)
+//@        && (forall j int :: 0 <= j && j < splitLen(hdrText(d, param), ",") ==> primAccepts(splitAt(hdrText(d, param), ",", j), schema.Value.Items) && primValue(splitAt(hdrText(d, param), ",", j), schema.Value.Items) != nil)
+//@        ==> result.1 && result.2 == nil && len(result.0) == splitLen(hdrText(d, param), ",")
+//@         && (forall j int :: 0 <= j && j < len(result.0) ==> result.0[j] == primValue(splitAt(hdrText(d, param), ",", j), schema.Value.Items))
+//@   tag C05 C10
+
+//@ func (*headerParamDecoder).DecodeObject
+//@   requires d != nil
+//@   assuming sm != nil && schema != nil && schema.Value != nil
+//@   modifies *
+//@   preserves all(openapi3), headerParamDecoder.*, map[string][]string, []string
+//@   ensures [unsupported-style] sm.Style != "simple" ==> result.2 != nil
+//@   ensures [absent] sm.Style == "simple" && !old(hdrPresent(d, param)) ==> result.0 == nil && result.2 == nil
+//@   ensures [decodes-serialisation] sm.Style == "simple" && old(hdrPresent(d, param))
+//@        ==> result.1
+//@         && ((result.2 == nil) <==> (propsOK(old(hdrText(d, param)), ",", objVD(sm.Explode)) && objAccepts(propsMap(old(hdrText(d, param)), ",", objVD(sm.Explode)), schema)))
+//@         && (result.2 == nil ==> result.0 == objValue(propsMap(old(hdrText(d, param)), ",", objVD(sm.Explode)), schema))
+//@   tag C05 C10
+
+// ---- cookie parameters: style form; arrays and objects only without explode (one cookie holds
+// the comma-separated list)
+//@ func (*cookieParamDecoder).DecodePrimitive
+//@   requires d != nil
+//@   assuming d.req != nil && sm != nil && schema != nil && schema.Value != nil
+//@   modifies nothing
+//@   ensures [unsupported-style] sm.Style != "form" ==> result.2 != nil
+//@   ensures [absent] sm.Style == "form" && !cookiePresent(d.req, param) ==> result.0 == nil && !result.1 && result.2 == nil
+//@   ensures [decodes-serialisation] sm.Style == "form" && cookiePresent(d.req, param)
+//@        ==> result.1 && result.0 == primValue(cookieValue(d.req, param), schema) && ((result.2 == nil) <==> primAccepts(cookieValue(d.req, param), schema))
+//@   tag C05 C10
+
+//@ func (*cookieParamDecoder).DecodeArray
+//@   requires d != nil
+//@   assuming d.req != nil && sm != nil && schema != nil && schema.Value != nil && schema.Value.Items != nil && schema.Value.Items.Value != nil
+//@   modifies nothing
+//@   ensures [unsupported-style] (sm.Style != "form" || sm.Explode) ==> result.2 != nil
+//@   ensures [absent] sm.Style == "form" && !sm.Explode && !cookiePresent(d.req, param) ==> len(result.0) == 0 && !result.1 && result.2 == nil
+//@   ensures [decodes-serialisation] sm.Style == "form" && !sm.Explode && cookiePresent(d.req, param)
+//@        && (forall j int :: 0 <= j && j < splitLen(cookieValue(d.req, param), ",") ==> primAccepts(splitAt(cookieValue(d.req, param), ",", j), schema.Value.Items) && primValue(splitAt(cookieValue(d.req, param), ",", j), schema.Value.Items) != nil)
+//@        ==> result.1 && result.2 == nil && len(result.0) == splitLen(cookieValue(d.req, param), ",")
+//@         && (forall j int :: 0 <= j && j < len(result.0) ==> result.0[j] == primValue(splitAt(cookieValue(d.req, param), ",", j), schema.Value.Items))
+//@   tag C05 C10
+
+//@ func (*cookieParamDecoder).DecodeObject
+//@   requires d != nil
+//@   assuming d.req != nil && sm != nil && schema != nil && schema.Value != nil
+//@   modifies *
+//@   preserves all(openapi3), cookieParamDecoder.*, http.Request.*
+//@   ensures [unsupported-style] (sm.Style != "form" || sm.Explode) ==> result.2 != nil
+//@   ensures [absent] sm.Style == "form" && !sm.Explode && !cookiePresent(old(d.req), param) ==> result.0 == nil && !result.1 && result.2 == nil
+//@   ensures [decodes-serialisation] sm.Style == "form" && !sm.Explode && cookiePresent(old(d.req), param)
+//@        ==> result.1
+//@         && ((result.2 == nil) <==> (propsOK(cookieValue(old(d.req), param), ",", ",") && objAccepts(propsMap(cookieValue(old(d.req), param), ",", ","), schema)))
+//@         && (result.2 == nil ==> result.0 == objValue(propsMap(cookieValue(old(d.req), param), ",", ","), schema))
+//@   tag C05 C10
+
+// ---- query parameters
+// the value of one piece of a query array: schema-directed through compositions (named by
+// itemValue / itemAccepts); without compositions it is the primitive the text denotes
+//@ spec itemValue(v string, s *openapi3.SchemaRef) any
+//@ spec itemAccepts(v string, s *openapi3.SchemaRef) bool
+//@ spec plainSchema(s *openapi3.SchemaRef) bool := len(s.Value.AllOf) == 0 && len(s.Value.AnyOf) == 0 && len(s.Value.OneOf) == 0 && s.Value.Not == nil
+//@ func (*urlValuesDecoder).parseValue
+//@   assuming schema != nil && schema.Value != nil
+//@   modifies *
+//@   preserves all(openapi3), urlValuesDecoder.*, map[string][]string, []string, []any
+//@   defines result.0 == itemValue(v, schema) && ((result.1 == nil) <==> itemAccepts(v, schema))
+//@   ensures [without-compositions] plainSchema(schema) ==> result.0 == primValue(v, schema) && ((result.1 == nil) <==> primAccepts(v, schema))
+//@   ensures [not-is-unsupported] len(schema.Value.AllOf) == 0 && len(schema.Value.AnyOf) == 0 && len(schema.Value.OneOf) == 0 && schema.Value.Not != nil ==> result.1 != nil
+//@   tag C05
+
+//@ spec qItemOK(raw []string, s *openapi3.SchemaRef, i int) bool := itemAccepts(raw[i], s.Value.Items) && itemValue(raw[i], s.Value.Items) != nil
+//@ func (*urlValuesDecoder).parseArray
+//@   assuming schemaRef != nil && schemaRef.Value != nil && schemaRef.Value.Items != nil && schemaRef.Value.Items.Value != nil
+//@   modifies *
+//@   preserves all(openapi3), urlValuesDecoder.*, map[string][]string, []string
+//@   loop 0 invariant len(value) == #i
+//@   loop 0 invariant forall j int :: 0 <= j && j < #i ==> qItemOK(raw, schemaRef, j) && value[j] == itemValue(raw[j], schemaRef.Value.Items)
+//@   ensures [all-items] (forall j int :: 0 <= j && j < len(raw) ==> qItemOK(raw, schemaRef, j))
+//@        ==> result.1 == nil && len(result.0) == len(raw) && (forall j int :: 0 <= j && j < len(raw) ==> result.0[j] == itemValue(raw[j], schemaRef.Value.Items))
+//@   ensures [bad-item-rejected] (exists k int :: 0 <= k && k < len(raw) && !itemAccepts(raw[k], schemaRef.Value.Items) && (forall j int :: 0 <= j && j < k ==> qItemOK(raw, schemaRef, j))) ==> result.1 != nil
+//@   ensures [error-carries-no-value] result.1 != nil ==> len(result.0) == 0
+//@   tag C05 C10
+
+//@ spec qVals(d *urlValuesDecoder, param string) []string := d.values[param]
+//@ func (*urlValuesDecoder).DecodePrimitive
+//@   requires d != nil
+//@   assuming sm != nil && schema != nil && schema.Value != nil
+//@   modifies nothing
+//@   ensures [unsupported-style] sm.Style != "form" ==> result.2 != nil
+//@   ensures [absent] sm.Style == "form" && len(qVals(d, param)) == 0 ==> result.0 == nil && result.1 == has(d.values, param) && result.2 == nil
+//@   ensures [decodes-serialisation] sm.Style == "form" && len(qVals(d, param)) > 0 && !(schema.Value.Type == nil && schema.Value.Pattern != "")
+//@        ==> result.1 && result.0 == primValue(qVals(d, param)[0], schema) && ((result.2 == nil) <==> primAccepts(qVals(d, param)[0], schema))
+//@   ensures [untyped-pattern-takes-the-text] sm.Style == "form" && len(qVals(d, param)) > 0 && schema.Value.Type == nil && schema.Value.Pattern != ""
+//@        ==> result.1 && result.2 == nil && typeof(result.0) == type string && result.0.(string) == qVals(d, param)[0]
+//@   tag C05 C10
+
+// arrays: explode = one value per repetition of the parameter; otherwise the first value is a list
+// separated by "," (form), " " (spaceDelimited) or "|" (pipeDelimited)
+//@ spec qArrStyle(style string) bool := style == "form" || style == "spaceDelimited" || style == "pipeDelimited"
+//@ spec qDelim(style string) string := style == "spaceDelimited" ? " " : style == "pipeDelimited" ? "|" : ","
+//@ func (*urlValuesDecoder).DecodeArray
+//@   requires d != nil
+//@   assuming sm != nil && schema != nil && schema.Value != nil && schema.Value.Items != nil && schema.Value.Items.Value != nil
+//@   modifies *
+//@   preserves all(openapi3), urlValuesDecoder.*, map[string][]string, []string
+//@   ensures [deep-object-is-not-an-array-style] sm.Style == "deepObject" ==> result.2 != nil
+//@   ensures [absent] sm.Style != "deepObject" && len(old(qVals(d, param))) == 0 ==> len(result.0) == 0 && result.2 == nil
+//@   ensures [decodes-exploded] qArrStyle(sm.Style) && sm.Explode && len(old(qVals(d, param))) > 0
+//@        && (forall j int :: 0 <= j && j < len(old(qVals(d, param))) ==> itemAccepts(old(qVals(d, param)[j]), schema.Value.Items) && itemValue(old(qVals(d, param)[j]), schema.Value.Items) != nil)
+//@        ==> result.1 && result.2 == nil && len(result.0) == len(old(qVals(d, param)))
+//@         && (forall j int :: 0 <= j && j < len(result.0) ==> result.0[j] == itemValue(old(qVals(d, param)[j]), schema.Value.Items))
+//@   ensures [decodes-delimited] qArrStyle(sm.Style) && !sm.Explode && len(old(qVals(d, param))) > 0
+//@        && (forall j int :: 0 <= j && j < splitLen(old(qVals(d, param)[0]), qDelim(sm.Style)) ==> itemAccepts(splitAt(old(qVals(d, param)[0]), qDelim(sm.Style), j), schema.Value.Items) && itemValue(splitAt(old(qVals(d, param)[0]), qDelim(sm.Style), j), schema.Value.Items) != nil)
+//@        ==> result.1 && result.2 == nil && len(result.0) == splitLen(old(qVals(d, param)[0]), qDelim(sm.Style))
+//@         && (forall j int :: 0 <= j && j < len(result.0) ==> result.0[j] == itemValue(splitAt(old(qVals(d, param)[0]), qDelim(sm.Style), j), schema.Value.Items))
+//@   tag C05 C10
